@@ -21,7 +21,7 @@ LOCAL_HANDLING = [
     ('db::DbInner::kill_logs', r'DbInner::write_stats_text$', 'statistics text file at shutdown: failure is logged; not database content'),
     ('db::Db::drop_inner', r'JoinHandle::<T>::join$', 'Drop cannot return an error: a panicked worker is logged'),
     ('db::Db::drop_inner', r'DbInner::kill_logs$', 'Drop cannot return an error: logged; logs are left in place for the next open'),
-    ('db::Db::drop_inner', r'File::unlock$', 'Drop cannot return an error: the lock dies with the descriptor anyway'),
+    ('*', r'File::unlock$|FileExt::unlock$', 'releasing the advisory lock at shutdown cannot be reported: the lock dies with the descriptor anyway'),
     ('migration::migrate::{closure#1}', r'Db::commit_raw$', 'iteration is aborted (returns false); the only possible error is a persistent Background error, which the final commit_raw of migrate reports'),
     ('migration::migrate::{closure#2}', r'std::fs::metadata$', 'existence test of the temporary directory'),
     ('column::HashColumn::iter_values::{closure#0}', r'Compress::decompress$', 'value iteration callback: stops the iteration (returns false)'),
@@ -74,7 +74,7 @@ def run(ctx):
             continue
         # examined locally
         local += 1
-        hit = [i for i, (fn, rx, why) in enumerate(LOCAL_HANDLING) if fn == b.path and re.search(rx, callee)]
+        hit = [i for i, (fn, rx, why) in enumerate(LOCAL_HANDLING) if fn in (b.path, '*') and re.search(rx, callee)]
         ctx.ob('1 local %s <- %s' % (b.path, callee), 'K6a-no-dropped-error', b.path,
                'a fallible result that is neither propagated nor stored is handled at a reviewed site' + (': ' + LOCAL_HANDLING[hit[0]][2] if hit else ''), bool(hit),
                'the Result of %s is only inspected (%s): the error does not leave the success path' % (callee, ','.join(sorted(x for x in s if 'fmt' not in x))[:120]), b.loc(bi))
@@ -104,6 +104,38 @@ def run(ctx):
         gate = [bi for bi in cr.normal_blocks() for s in cr.blocks[bi]['s'] if s['k'] == 'assign' and s['r']['k'] == 'agg' and s['r']['ak'] == 'Adt:error::Error::Background']
         w = cr.find_path([0], cr.return_blocks(), removed=set(gate), removed_edges=some) if some and gate else ['?']
         ctx.ob('2f later-commits-refused', 'K1-must-pass', cr.path, 'with a background error recorded every path through commit_raw returns Error::Background', w is None, '' if w is None else lib.short_path(cr, w))
+    # ------------------------------------------------------------ 2g. which I/O error may be taken for "end of data"
+    EOF = None
+    for a in F.raw['adts']:
+        pass
+    def eof_guarded(fn, site, label, desc):
+        b = F.body(fn)
+        ok = False
+        for (sw, yes, no) in b.control_deps(site):
+            pol = lib.eq_polarity(b, sw)
+            if pol:
+                eq_t, ne_t, ops = pol
+                sl = backward_slice(b, [op_place(o) for o in ops if op_place(o)])
+                aggs = [x for l in sl.locals for (b2, si, kind, x) in b.defs().get(l, []) if kind == 'assign' and x['r']['k'] == 'agg']
+                is_eof = any(x['r']['ak'] == 'Adt:std::io::ErrorKind::UnexpectedEof' for x in aggs) or any('UnexpectedEof' in str(c.get('un', '')) for c in sl.consts)
+                if eq_t in yes and ne_t in no and any(c.endswith('std::io::Error::kind') or c == 'std::io::Error::kind' for c in sl.calls):
+                    ok = True
+        ctx.ob(label, 'K3-guard', fn, desc, ok, '', b.loc(site))
+    rn = ctx.body('log::Log::read_next')
+    if rn:
+        pushes = [bi for b2, bi in lib.calls_on_field(F, ['std::collections::VecDeque::<T, A>::push_back'], '.Log.cleanup_queue', bodies=[rn])]
+        ctx.ob('2g0 end-of-log-anchor', 'anchor', rn.path, 'read_next retires a finished log file onto the cleanup queue in one place', len(pushes) == 1, str(pushes))
+        for s in pushes:
+            eof_guarded(rn.path, s, '2g log-retired-only-on-eof', 'a log file is declared fully read (queued for truncation) only on the equal edge of io::Error::kind() == UnexpectedEof; any other read error is returned')
+    ol = ctx.body('log::Log::open_log_file')
+    if ol:
+        nones = [bi for bi in ol.normal_blocks() for st in ol.blocks[bi]['s'] if st['k'] == 'assign' and st['r']['k'] == 'agg' and st['r']['ak'] == 'Adt:std::option::Option::None']
+        kd = ol.call_sites('std::io::Error::kind')
+        ctx.ob('2h0 headerless-log-anchor', 'anchor', ol.path, 'open_log_file reports "no first record" (file deleted at open) in two places and inspects the error kind', len(nones) == 2 and len(kd) == 1, '%s %s' % (nones, kd))
+        rd = ol.call_sites('log::Log::read_first_record_id')
+        for s in nones:
+            if rd and s in ol.reaches(rd[0]):
+                eof_guarded(ol.path, s, '2h headerless-only-on-eof', 'a log file is treated as header-less (and deleted by Log::open) after a failed header read only when the error kind is UnexpectedEof')
     # ------------------------------------------------------------ 3. informational: I/O calls outside try_io!
     out = []
     for b in F.bodies.values():
